@@ -4,13 +4,9 @@ Properties/C03.lean — two-collection search and database lookups are exact.
 -/
 import Prs.Proofs.SymDB
 import Prs.Proofs.LookupDB
-import Prs.Spec.Scores
+import Prs.Model.Engines
 namespace Prs
 variable {α : Type} [DecidableEq α]
-
-/-- `symdel(ref, max_edits = k, seqs2 = qs)` = `SymdelDB(ref, k).lookup(qs)` in the default mode -/
-def symdelTwoDefault (k : Nat) (ref qs : List (List α)) : List (Trip Nat) :=
-  symdelLookup (delVariants k) (levScore k) ref qs
 
 /-- EXACTNESS: (q, r, d) is reported iff q is a query position, r a reference position and
 d = lev(query[q], reference[r]) ≤ k — identical sequences (d = 0) and numerically equal positions
@@ -73,11 +69,6 @@ theorem C03_oracle_is_spec (k : Nat) (ref qs : List (List α)) (q r d : Nat) :
     exact ⟨(a, q), ha, (b, r), hb, by simp [hk]⟩
 
 /-! ### LookupDB (hash based): the query's edit ball is enumerated and probed -/
-
-/-- `LookupDB(ref).lookup(qs, max_edits = k, pdist_mode)` over the alphabet `A` in the default mode:
-the custom distance defaults to Levenshtein (recomputed on the hit) with an infinite radius -/
-def lookupDefault (A : List α) (pdist : Bool) (ref qs : List (List α)) (k : Nat) : List (Trip Nat) :=
-  lookupDB (levNeighbors A) (fun a b => lev a b) (fun _ => true) pdist ref qs k
 
 /-- EXACTNESS of LookupDB.lookup for references over the alphabet (queries arbitrary): without
 pdist_mode every (q, r) within distance k is reported — numerically equal positions included. -/
